@@ -201,6 +201,7 @@ Touch(op, l) ==
 Desc(its, j) == IF j < 1 \/ j > Len(its) THEN "" ELSE IF its[j].s \in {"L", "T"} THEN its[j].x ELSE its[j].s
 SiteOf(op, l) == LET j == Touch(op, l) IN
                  [k |-> l.k, lit |-> Desc(l.items, j), prev |-> Desc(l.items, j - 1), next |-> Desc(l.items, j + 1),
+                  next2 |-> Desc(l.items, j + 2),
                   first |-> Desc(l.items, LeadTabs(l.items) + 1), tabs |-> LeadTabs(l.items)]
 
 (* ---- structural operators: insert / remove / move a line ------------------------------------------------- *)
@@ -314,6 +315,7 @@ Violate ==
              /\ prog' = r.p
              /\ viol' = [op |-> op, line |-> r.line, code |-> SCode(op),
                           site |-> [k |-> prog[i].k, lit |-> "", prev |-> IF i > 1 THEN prog[i - 1].k ELSE "", next |-> IF i < Len(prog) THEN prog[i + 1].k ELSE "",
+                                    next2 |-> "",
                                     first |-> "", tabs |-> LeadTabs(prog[i].items)]]
     /\ phase' = "violated"
     /\ UNCHANGED <<nfun, body, open, elseOK, ndecl, scope, wrapped>>
